@@ -737,6 +737,7 @@ func (r *vRunner) run(c vCase) {
 			name := string(vunhex(o.Test))
 			t := r.t(name)
 			nlog := len(t.logs)
+			nskip := t.skips
 			switch o.Form { // the three wrappers record the test name alike
 			case "f":
 				Skipf(t, "skipped by %s", "harness")
@@ -750,7 +751,11 @@ func (r *vRunner) run(c vCase) {
 				lk = append(lk, vClassifyLog(l))
 			}
 			fmt.Fprintf(r.w, "op skip test=%s\n", vhex([]byte(name)))
-			fmt.Fprintf(r.w, "obs %d outcome=skiplogged errors=0 logs=%s writes=- line=0\n", r.idx, strings.Join(lk, ","))
+			oc := "skiplogged"
+			if t.skips != nskip+1 {
+				oc = fmt.Sprintf("skipnotforwarded:%d", t.skips-nskip) // the wrapper must end in exactly one testing.T Skip/Skipf/SkipNow
+			}
+			fmt.Fprintf(r.w, "obs %d outcome=%s errors=0 logs=%s writes=- line=0\n", r.idx, oc, strings.Join(lk, ","))
 		case "newconfig":
 			opts := []func(*Config){}
 			dirS := "~"
